@@ -187,7 +187,7 @@ func runC15(o *Out, r *rand.Rand, thorough bool, _ []string) {
 		case 0:
 			n = r.Intn(3)
 		case 1:
-			n = 60 + r.Intn(6)
+			n = 60 + r.Intn(12) // around and above the 64 keys an offer may name: a stream is a stream, however many items
 		default:
 			n = r.Intn(12)
 		}
@@ -299,6 +299,16 @@ func runC15(o *Out, r *rand.Rand, thorough bool, _ []string) {
 				return fmt.Sprintf("outlen=%d prefixes=%s bodies=%d rt=%s", len(enc), strings.Join(prefixes, ","), bodies, rt)
 			}()
 			o.Case("hugeenc "+strings.Join(ls, ","), out)
+		}
+	}
+	// 1c. many well-formed items followed by a malformed tail: wherever in the stream the fault lies, the stream is rejected
+	for _, n := range []int{63, 64, 65, 66, 100} {
+		var head []byte
+		for k := 0; k < n; k++ {
+			head = append(head, portalwire.VerifEncodeSingleContent([]byte{byte(k)})...)
+		}
+		for _, tail := range [][]byte{{5, 1, 2}, {0x80}, {0xff, 0xff, 0xff, 0xff, 0x1f, 1}, {3, 1, 2, 3, 9}} {
+			emitDec("longtail", append(append([]byte{}, head...), tail...))
 		}
 	}
 	// 2. edge varints and hand-picked streams
